@@ -3,7 +3,7 @@
 (* TLC run for C15.  TRACE_FILE is a JSON object {req: [...], cases: [...]}*)
 (*                                                                         *)
 (* (a) Generation and self-check ("G" states, one per request).  A request *)
-(*     {s, cap, vals} names a schema of CodecSchemas; the values are the   *)
+(*     {s, q, cap, vals} names a schema of CodecSchemas; the values are the   *)
 (*     boundary samples Samples(S[s], cap) or, if vals is not empty, the   *)
 (*     values given.  For every value v the lemma                          *)
 (*         Fits(s, v)  =>  Dec(s, Enc(s, v)) = Ok(v, <<>>)                 *)
@@ -21,9 +21,10 @@
 (*       projected from the parsed object; rwk = "same" if the parsed      *)
 (*       object serialises to b again, "diff" / "raised" otherwise.        *)
 (*     The verdict of every case is computed here from Enc, Dec, Fits.     *)
-(*     BAD lines are property violations; SOFT lines record that a vector  *)
-(*     outside its <floor..ceiling> was written / accepted (range, not     *)
-(*     framing).                                                           *)
+(*     BAD lines are property violations; SOFT lines record that a value   *)
+(*     outside its <floor..ceiling> / literal was written or accepted      *)
+(*     (range, not framing), or that write() loudly refused a well-formed  *)
+(*     value (nothing silent, nothing to compare).                         *)
 (***************************************************************************)
 EXTENDS CodecSchemas, Json, IOUtils, TLC, TLCExt
 
@@ -50,7 +51,7 @@ LemmaOne(s, v) ==
 Describe(r, j, v) ==
   LET s == S[r.s]
       f == Fits(s, v, FALSE)
-  IN [s |-> r.s, j |-> j, v |-> v, fits |-> f, sfits |-> f /\ Fits(s, v, TRUE),
+  IN [s |-> r.s, q |-> r.q, j |-> j, v |-> v, fits |-> f, sfits |-> f /\ Fits(s, v, TRUE),
       enc |-> IF f THEN Enc(s, v) ELSE <<>>,
       lay |-> IF f THEN Lay(s, v, 0) ELSE <<>>]
 GenOne(r) ==
@@ -75,15 +76,17 @@ JudgeW(c) ==
       f == Fits(s, c.v, FALSE)
       sf == f /\ Fits(s, c.v, TRUE)
   IN IF ~f THEN (IF c.raised THEN Bump(6) ELSE Bad("wrote-unrepresentable-value"))
-     ELSE IF c.raised THEN (IF sf THEN Bad("write-raised-on-wellformed") ELSE Bump(6))
+     ELSE IF c.raised THEN (IF sf THEN Soft("write-refused-wellformed") ELSE Bump(6))
      ELSE IF c.out # Enc(s, c.v) THEN Bad("write-mismatch")
      ELSE IF sf THEN Bump(6) ELSE Soft("wrote-out-of-range")
 
 JudgeAccepted(c, d, strictOk) ==
   \* the implementation accepted bytes the framing allows: value and re-serialisation must agree
   IF ~SameJson(View(c.s, d.v), c.pv) THEN Bad("value-mismatch")
-  ELSE IF c.s \notin Lossy /\ c.rwk # "same" THEN Bad("reserialise-mismatch")
-  ELSE IF strictOk THEN Bump(5) ELSE Soft("accepted-out-of-range")
+  ELSE IF ~strictOk THEN Soft("accepted-out-of-range")
+  ELSE IF c.s \in Lossy \/ c.rwk = "same" THEN Bump(5)
+  ELSE IF c.rwk = "raised" THEN Soft("reserialise-refused")
+  ELSE Bad("reserialise-mismatch")
 
 JudgeP(c) ==
   LET s == S[c.s]
